@@ -5,6 +5,7 @@ from .common import *
 from vsym.core import choose
 
 PROPERTY = 'C18'
+PYTHON_O = ['generated/compressed/latin_1/vbs', 'packaged/IP0075T1/expanded', 'refusals']      # obligations that are also explored with the modules compiled as under python -O
 ASSUMPTIONS = [
     'extract file = literal index rows + literal trailer + up to 3 data rows; each data row = literal key fields (timestamp, code, table id / sub id) '
     'followed by opaque text of symbolic length; which table each row belongs to is explored exhaustively',
@@ -66,13 +67,17 @@ def extract(table, cfg_mode, expanded, enc, blocked, nrows, maxlen, via_csv=Fals
             pcfg = {table: layout}
         member = [choose('row%d_table' % i, [table, 'IPOTHER1']) for i in range(nrows)]
         rows = [data_row(i, member[i], expanded, maxlen) for i in range(nrows)]
+        # the table index may or may not list the requested table; expanded rows carry their own table id, so the index plays no part there
+        index = choose('index', ['all', 'without-requested']) if expanded else 'all'
+        tables = None if index == 'all' else [t for t in SUBID if t != table]
 
         def rp():
             return {'kind': 'extract', 'args': {'table': table, 'cfg': 'packaged' if pcfg is None else {k: {'start': ev(v['start']), 'end': ev(v['end'])} for k, v in layout.items()},
                                                 'expanded': expanded, 'enc': enc, 'blocked': blocked, 'member': member,
-                                                'lens': [ev(rlen(r[0])) for r in rows]}}
+                                                'lens': [ev(rlen(r[0])) for r in rows], 'index': index,
+                                                'rows': [concretize(r[0], ev) for r in rows]}}
         core.set_fallback(rp, 'C18/concretised')
-        f = build_file(m, [r[0] for r in rows], enc, blocked)
+        f = build_file(m, [r[0] for r in rows], enc, blocked, tables=tables)
         got = []
         with guard('IpmParamReader', 'C18/exception', rp):
             if via_csv:
